@@ -17,6 +17,18 @@ from props import c03
 TREE_AVERAGING = ["Decision Tree", "Extra Trees", "Random Forest"]
 
 
+def direct_rater(reg, ts, names, lda):
+    """an IndentationRater built directly (not through get_rater): regressor class and default keyword
+    arguments from the live table, training set loaded with the public loader when given by label / path"""
+    from nanite.rate import rater as nrater
+    from nanite.rate import IndentationRater
+    if not isinstance(ts, tuple):
+        path = IndentationRater.get_training_set_path(label=ts) if ts in nrater.get_available_training_sets() else ts
+        ts = IndentationRater.load_training_set(path=path, names=names)
+    cl, kw = nrater.reg_dict[reg]
+    return IndentationRater(regressor=cl(**copy.deepcopy(kw)), training_set=ts, names=names, lda=lda)
+
+
 def state_classes(cid):
     """(label, curve) for every reachable state class"""
     out = []
@@ -134,6 +146,53 @@ def run(ctx):
                                 if c != a:
                                     ctx.violation("differs-from-standalone-rater",
                                                   f"rate_quality gives {a}, the standalone rater {c}", {"input": meta})
+                                c2 = direct_rater(reg, copy.deepcopy(ts), nm, lda).rate(datasets=idnt)[0]
+                                if c2 != a:
+                                    ctx.violation("differs-from-directly-built-rater",
+                                                  f"rate_quality gives {a}, an IndentationRater built directly from "
+                                                  f"the same regressor and training set gives {c2}", {"input": meta})
+        # the rating is a function of the training set VALUES: sets that differ only in the middle rows (same shape,
+        # same first / last rows), and a user directory rewritten in place, must not be confused
+        Xa, ya = X.copy(), y.copy()
+        Xb, yb = X.copy(), y.copy()
+        mid = slice(len(yb) // 3, 2 * len(yb) // 3)
+        yb[mid] = 10 - yb[mid]
+        Xb[mid] = Xb[mid][::-1]
+        for reg in ("Extra Trees", "Decision Tree"):
+            vals = []
+            for lab, ts in (("set-a", (Xa, ya)), ("set-b", (Xb, yb)), ("set-a-again", (Xa.copy(), ya.copy()))):
+                meta = {"oracle": "training-set-values", "regressor": reg, "training_set": lab}
+                ctx.case(meta, nontrivial=json.dumps(meta), bucket="stream=training-set-values")
+                with warnings.catch_warnings():
+                    warnings.simplefilter("ignore")
+                    w_ = dict(state_classes(2))["fitted"]
+                    a = w_.rate_quality(regressor=reg, training_set=ts)
+                    c2 = direct_rater(reg, (ts[0].copy(), ts[1].copy()), None, None).rate(datasets=w_)[0]
+                vals.append(a)
+                if a != c2:
+                    ctx.violation("rating-ignores-training-set-values",
+                                  f"rate_quality with in-memory training set '{lab}' gives {a!r}, a rater built directly "
+                                  f"on these arrays gives {c2!r} (sets a and b share shape, first and last rows)",
+                                  {"input": meta, "observed": a, "expected": c2})
+        tdir2 = tdir / "rewritten"
+        for rnd, sl in enumerate((slice(0, None, 7), slice(3, None, 5))):
+            if tdir2.exists():
+                shutil.rmtree(tdir2)
+            tdir2.mkdir()
+            for j, n in enumerate(names):
+                np.savetxt(tdir2 / f"train_{n}.txt", X[sl, j], fmt="%.2e")
+            np.savetxt(tdir2 / "train_response.txt", y[sl], fmt="%.2e")
+            meta = {"oracle": "user-directory-rewritten", "round": rnd}
+            ctx.case(meta, nontrivial=json.dumps(meta), bucket="stream=training-set-values")
+            with warnings.catch_warnings():
+                warnings.simplefilter("ignore")
+                w_ = dict(state_classes(2))["fitted"]
+                a = w_.rate_quality(regressor="Extra Trees", training_set=str(tdir2))
+                c2 = direct_rater("Extra Trees", str(tdir2), None, None).rate(datasets=w_)[0]
+            if a != c2:
+                ctx.violation("rating-ignores-rewritten-training-set",
+                              f"user training-set directory rewritten at the same path: rate_quality gives {a!r}, a rater "
+                              f"built directly from the directory as it is now gives {c2!r}", {"input": meta})
         # the order in which feature names are listed is immaterial (training columns and the curve's sample
         # must be paired by name), for training sets read from disk
         allc = IndentationRater.get_feature_names(which_type=["continuous"])
